@@ -63,6 +63,39 @@ def sample_multi(hists, cap, rnd):
     return (good[:cap * 3 // 4] + rest)[:cap]
 
 
+def sample_onepass(hists, cap, rnd):
+    """collect-mode histories: first those in one-pass mode that request a stream/query after a resume ... pause, then the rest"""
+    def score(h):
+        v = [x.split("|") for x in h]
+        if v[0][1] != "ok_onepass":
+            return 0
+        sc = 1
+        seen_resume = seen_pause_after = False
+        for verb, arg, tgt, exp in v[1:]:
+            if verb == "resume":
+                if seen_pause_after == "created":
+                    return 4            # ... stream created while paused after a release, then resumed
+                seen_resume = True
+            elif verb == "pause" and seen_resume:
+                seen_pause_after = True
+            elif verb in ("stream", "query") and arg == "ok_onepass":
+                if seen_pause_after:
+                    seen_pause_after = "created"
+                    sc = 3
+                elif seen_resume:
+                    sc = max(sc, 2)
+        return sc
+    groups = collections.defaultdict(list)
+    for h in hists:
+        groups[score(h)].append(h)
+    picked = []
+    for sc, share in ((4, cap // 2), (3, cap // 8), (2, cap // 8), (1, cap // 8), (0, cap // 8)):
+        g = groups[sc]
+        rnd.shuffle(g)
+        picked += g[:share]
+    return picked[:cap]
+
+
 def sample_histories(hists, cap, rnd):
     """all histories that address a live handle, then histories starting with a successful open, then the rest"""
     def score(h):
@@ -142,14 +175,15 @@ def check(ctx):
         c.tlc_must_pass(ctx, "model-full", "Remote.tla", "Remote_thorough_full.cfg", timeout=3000)
     # (b) scenario emission
     hists = []
-    plan = [("Remote_emit_quick.cfg", 1300), ("Remote_emit_multi.cfg", 300)] if quick else [
-        ("Remote_emit_full2.cfg", 8000), ("Remote_emit_quick.cfg", 6000), ("Remote_emit_core4.cfg", 6000), ("Remote_emit_multi.cfg", 3000)]
+    plan = [("Remote_emit_quick.cfg", 1150), ("Remote_emit_multi.cfg", 250), ("Remote_emit_onepass.cfg", 250)] if quick else [
+        ("Remote_emit_full2.cfg", 8000), ("Remote_emit_quick.cfg", 6000), ("Remote_emit_core4.cfg", 6000), ("Remote_emit_multi.cfg", 3000),
+        ("Remote_emit_onepass.cfg", 3000)]
     emitted = 0
     for cfg, cap in plan:
         res = c.tlc_must_pass(ctx, "emit-" + cfg.split("_emit_")[1].split(".")[0], "Remote.tla", cfg, timeout=3000)
         hs = letters(res)
         emitted += len(hs)
-        hists += sample_multi(hs, cap, rnd) if "multi" in cfg else sample_histories(hs, cap, rnd)
+        hists += sample_multi(hs, cap, rnd) if "multi" in cfg else sample_onepass(hs, cap, rnd) if "onepass" in cfg else sample_histories(hs, cap, rnd)
     scn = ctx.path("scenarios.ndjson")
     with open(scn, "w") as f:
         for h in hists:
